@@ -8,6 +8,8 @@ package main
 //     reported under the law name of the defect).
 
 import (
+	"strconv"
+
 	"github.com/mithrandie/csvq/lib/option"
 	"github.com/mithrandie/csvq/lib/value"
 	"github.com/mithrandie/go-text"
@@ -15,6 +17,8 @@ import (
 
 	"verifharness/hc"
 )
+
+func itoa(i int) string { return strconv.Itoa(i) }
 
 func cS(s string) cell { return mkCell(value.NewString(s)) }
 func cI(i int64) cell  { return mkCell(value.NewInteger(i)) }
@@ -86,6 +90,17 @@ func corpus(o *hc.Out, dir string) {
 		{"fixed.F12.tsv.linebreak_in_cell", tbl([]string{"h\n1", "b"}, []cell{cS("x\ny"), cS("r\rs")}, []cell{cS("\r\n"), cI(2)}), with(option.TSV, func(op *opts) { op.lb = text.CRLF }), true},
 		{"fixed.F12.csv.linebreak_single_column", tbl([]string{"a"}, []cell{cS("x\ny")}), with(option.CSV, nil), true},
 		{"fixed.F29.jsonl.csvq_written_file_reloads", tbl(ab, []cell{cI(1), cS("x")}, []cell{cI(2), cS("y")}), with(option.JSONL, nil), true},
+	}
+	// ---- the size band: one record more than the loaders' prepared capacity; must pass ----
+	bigT := func() *table {
+		t := &table{header: []string{"id", "v"}, rows: make([][]cell, preparedCap+1)}
+		for i := range t.rows {
+			t.rows[i] = []cell{cS("r" + itoa(i)), cI(int64(i % 7))}
+		}
+		return t
+	}
+	for _, f := range []option.Format{option.CSV, option.TSV, option.LTSV, option.FIXED, option.JSONL, option.JSON} {
+		ws = append(ws, rtWitness{"size." + fmtName(f) + ".301_records", bigT(), with(f, nil), f == option.CSV})
 	}
 	for _, w := range ws {
 		r, names := rtRun(o, dir, w.t, w.op, w.proc, w.id)
